@@ -198,6 +198,13 @@ func (s *Stump) add(adds []Hash) ([]Hash, []uint64, []uint64) {
 			}
 		}
 
+		// A leaf that didn't get hashed with any root is a root by itself.
+		// Record it as well as it's a newly added node. If a later add
+		// merges with it, the entry is overwritten with its position then.
+		if newRoot == add {
+			updatedNodes[add] = pos
+		}
+
 		s.Roots = append(s.Roots, newRoot)
 		s.NumLeaves++
 	}
